@@ -292,6 +292,11 @@ func execute(t evid.TB, pl *plan, audience bool) *outcome {
 	}
 	for cursor < len(pl.pubs) {
 		publish()
+		// a window may fire during these publishes as well: its operation (running on a
+		// helper goroutine) must have finished before the next step and before the verdict
+		if !in.Wait(bound) {
+			evid.Violation(t, "window-op-stuck", pl, "an operation started inside a window never finished")
+		}
 	}
 	if !tr.WaitIdle(s, live(), bound) {
 		evid.Violation(t, "delivery-stuck", pl, "consumers did not drain within %v at the end: %s", bound, tr.Describe(s, live()))
